@@ -129,7 +129,7 @@ def outbound(sched: List[bool]) -> bool:
             raise IgnoreAttempt("schedule bound")
         except CS.Deadlock as d:
             reached()
-            if REPLAY: note(deadlock=d.who, schedule="".join(x[0] for x in s.trace))
+            if REPLAY: note(deadlock=d.who, schedule="".join(x[0] for x in s.trace)[-200:])
             return False
         except (LIB + (Exception,)) as e:
             reached()
@@ -165,6 +165,11 @@ def queries(tier, seed):
     add("inbound-dwr/lines/P1", {"role": "CLIENT", "submit": [["app_req"]], "presubmitted": True, "inbound": "dwr", "K": 64, "maxp": 1,
                                  "lines": ["read", "write", "_set_selector_events_mask"]},
         "same with a preemption point before every statement of read(), write() and _set_selector_events_mask()", t=max(t, 600), split=3)
+    one = len(_mk("app_req", 0).dump())
+    add("batch4/sendbuf2/ops/P1", {"role": "CLIENT", "submit": [["app_req", "app_req", "app_req", "app_req"]], "batch": True, "sendbuf": 2 * one + 8, "K": 64, "maxp": 1},
+        "send_messages() with 4 requests and a send buffer that holds two: the batch is cut twice, <= 1 preemption")
+    add("oversize/ops/P1", {"role": "SERVER", "submit": [["app_req", "app_ans"]], "sendbuf": one - 4, "K": 64, "maxp": 1},
+        "a request larger than the send buffer followed by a smaller answer (the buffer constant is patched below one message), <= 1 preemption")
     if tier != "quick":
         add("partial/lines/P2", {"role": "CLIENT", "submit": [["app_req", "app_req"]], "plan": [1, 30], "K": 64, "maxp": 2, "lines": LN},
             "partial writes 1, 30, rest with statement-level preemption, <= 2 preemptions")
